@@ -203,6 +203,18 @@ def trajectory(job):
         ppath.unlink()
 
 
+def after_noise(job):
+    """One job = one controlled order inside the worker process: first a whole unrelated round trip (build, export,
+    parse back; usually with repeated-argument fluents -- the D07 area; its result is dropped), then the trajectory
+    that is judged.  What the judged trajectory must look like does not depend on what the process did before."""
+    for n in job["noise"]:
+        try:
+            trajectory(n)
+        except Exception:  # noqa
+            pass
+    return trajectory(job["main"])
+
+
 def shipped(job):
     """job: domain (path), problem (path or None), trajectory (path), agents (list or None)"""
     domain = DomainParser(Path(job["domain"]), partial_parsing=True).parse_domain()
